@@ -627,20 +627,12 @@ theorem scopedHeld_spec (C : Ctx) (ses : Session) (u' : UserSt) (g1 : HG)
     | forget => exact absurd hexit hok.noForget
     | drop | unlock | ret =>
       simp only [wp_done]
-      split
-      · rw [wp_bindX]
-        apply hrel g2 _ _ a'
-        · intro g3 c d
-          exact dropKeyIf_spec _ _ _ _ _ (callEnd_spec _ g3 Q E (by out10) c (by rw [d]; exact b') hQ)
-        · intro g3 c d
-          exact hunw g3 c (by rw [d]; exact b')
-      · apply dropKeyIf_spec
-        rw [wp_bindX]
-        apply hrel g2 _ _ a'
-        · intro g3 c d
-          exact callEnd_spec _ g3 Q E (by out10) c (by rw [d]; exact b') hQ
-        · intro g3 c d
-          exact callEnd_spec _ g3 Q E (by out10) c (by rw [d]; exact b') hQ
+      rw [wp_bindX]
+      apply hrel g2 _ _ a'
+      · intro g3 c d
+        exact dropKeyIf_spec _ _ _ _ _ (callEnd_spec _ g3 Q E (by out10) c (by rw [d]; exact b') hQ)
+      · intro g3 c d
+        exact hunw g3 c (by rw [d]; exact b')
   · -- the closure body unwound (a Debug inside hit a raw fault)
     intro g2 a b
     exact hhandler g2 (a.trans h1) (by rw [b]; exact hd1)
